@@ -536,6 +536,11 @@ func tryConstEval(kind ExpressionKind, arena []Expression, module *Module) (Expr
 		leftVal, leftLit, leftOk := arenaExprAsFloat(arena, module, k.Left)
 		rightVal, _, rightOk := arenaExprAsFloat(arena, module, k.Right)
 		if leftOk && rightOk {
+			if (k.Op == BinaryDivide || k.Op == BinaryModulo) && rightVal == 0 {
+				// not a value this evaluator may invent: left to the backend's
+				// division, which has WGSL's run-time semantics
+				return nil, false
+			}
 			result := evalBinaryTyped(k.Op, leftVal, rightVal, literalIsInteger(leftLit.Value))
 			if binaryYieldsBool(k.Op) {
 				return Literal{Value: LiteralBool(result == 1.0)}, true
